@@ -505,10 +505,9 @@ func (m *Master) finish() int {
 	t := m.Tot
 	p := m.Prop
 	exit := 0
-	if t.Fatal != "" {
-		fmt.Printf("HARNESS-ERROR property=%s %s\n", p.ID, t.Fatal)
-		exit = 2
-	}
+	// A harness failure (a task that could not do its work, a worker that died outside a marked case) makes the
+	// run incomplete; it is printed after the violations: a violation that reproduces from its own payload in
+	// fresh processes stands by itself, and then the failure is reported as INCOMPLETE beside it.
 	// group violations by signature, smallest first
 	bySig := map[string][]Violation{}
 	for _, v := range t.Violations {
@@ -531,9 +530,6 @@ func (m *Master) finish() int {
 		if k, ok := known[sig]; ok {
 			fmt.Printf("KNOWN-FINDING: property=%s %s [sig=%s cases=%d e.g. %s]\n", p.ID, k.What, sig, t.VioCounts[sig], oneLine(v.Desc, 160))
 			knownSeen = append(knownSeen, sig)
-			continue
-		}
-		if exit == 2 {
 			continue
 		}
 		ok, why := true, ""
@@ -579,6 +575,14 @@ func (m *Master) finish() int {
 		vioSummaries = append(vioSummaries, map[string]any{"sig": sig, "cases": t.VioCounts[sig], "desc": oneLine(v.Desc, 300)})
 		if exit == 0 {
 			exit = 1
+		}
+	}
+	if t.Fatal != "" {
+		if nviol > 0 {
+			fmt.Printf("INCOMPLETE property=%s %s\n", p.ID, oneLine(t.Fatal, 400))
+		} else {
+			fmt.Printf("HARNESS-ERROR property=%s %s\n", p.ID, t.Fatal)
+			exit = 2
 		}
 	}
 	for _, u := range unconfirmed {
